@@ -103,7 +103,8 @@ from .analyzer import (
 def _write_file_atomic(path: str, content: str) -> None:
     """Write a file so that it is either complete or untouched (temp file + rename)."""
     tmp_path = path + '.tmp'
-    with open(tmp_path, 'w', encoding='utf-8') as f:
+    # newline='' - write the text exactly as given (a CRLF file stays CRLF)
+    with open(tmp_path, 'w', encoding='utf-8', newline='') as f:
         f.write(content)
     os.replace(tmp_path, path)
 
@@ -158,7 +159,8 @@ def _migrate_csv_to_rules(csv_file: str, config_dir: str, backup: bool = True) -
         # Update settings.yaml to reference new file (before the CSV goes away)
         settings_path = os.path.join(config_dir, 'settings.yaml')
         if os.path.exists(settings_path):
-            with open(settings_path, 'r', encoding='utf-8') as f:
+            # newline='' - keep the user's line endings: the file is written back below
+            with open(settings_path, 'r', encoding='utf-8', newline='') as f:
                 settings_content = f.read()
             # Look for an actual top-level key, not a mention in a comment
             if not re.search(r'^merchants_file\s*:', settings_content, re.MULTILINE):
